@@ -37,6 +37,9 @@ def rules(ck, P):
     # the pmtiles target keeps its (compressed) metadata and root directory apart: see wire.pm_layout_rules
     from . import wire
     wire.pm_layout_rules(ck, P)
+    # the mbtiles target implies the compression by its format string: (format, compression) table of writer and reader
+    from . import c01
+    c01.mbtiles_format_rules(ck, P)
     leaves = comp.leaf_summaries(P)
     good = {q: s for q, s in leaves.items() if s}
     ck.anchor("E-COMP-LEAF", "codec leaf functions", good, 5)
